@@ -321,6 +321,85 @@ static bool zCrossCase(const vh::Args &a, long k, int argc, char **argv) {
     return true;
 }
 
+// Fifth family ("shape-ends"): routing option nudgeOrthogonalSegmentsConnectedToShapes ON and connectors whose ends lie INSIDE
+// shapes: two facing shapes whose sides overlap over H = 16..60, m = 2..5 straight single-segment connectors between them lying
+// 1..3 apart (so nudging has to spread them inside the window the two shapes leave, which is too small for (m-1)*d in part of
+// the cases), optionally one connector from the left shape to a free point (an end segment that ends in a shape at one end only).
+// Exercises: singleConnectedSegment / endsInShape, the strong / stronger weights, shouldAlignWith on final segments, merging of
+// aligned end segments in linesort, retries with channel edges = shape sides. Route-level clauses that this option breaks by
+// design are the known class opt-final-nudge; the family is there for the region tie.
+static bool shapeEndsCase(const vh::Args &a, long k, int argc, char **argv) {
+    vh::Rng r = vh::caseRng(a.seed, k, 4);
+    static const double ds[] = {1, 4, 10};
+    double d = ds[r.range(0, 2)];
+    int m = (int) r.range(2, 5);
+    bool transpose = r.coin();
+    bool extra = r.coin(1, 3);
+    unsigned opts = 1u | (unsigned) (2 * r.range(0, 15));
+    double H = (double) r.range(16, 60);
+    double ya = 200 - (double) r.range(0, 20), yb = 200 - (double) r.range(0, 20);      // tops of the two shapes
+    double top = std::max(ya, yb), y0 = top + 2, step = (double) r.range(1, 3);
+    double gapx = 10.0 * r.range(4, 12);
+    auto P = [&](double x, double y) { return transpose ? Point(y, x) : Point(x, y); };
+    auto mkRect = [&](double xa, double y0_, double xb, double y1_) {
+        Point p = P(xa, y0_), q = P(xb, y1_);
+        return Rectangle(Point(std::min(p.x, q.x), std::min(p.y, q.y)), Point(std::max(p.x, q.x), std::max(p.y, q.y)));
+    };
+    vh::beginCase(k, "shape-ends");
+    printf("cfg %s %s %d %d %s %u %s %d shapeends\n", hx(d).c_str(), hx(H).c_str(), m + (extra ? 1 : 0), 0, hx(0.0).c_str(), opts, hx(0.0).c_str(), (int) transpose);
+    Router *router = nullptr;
+    try {
+        router = new Router(OrthogonalRouting);
+        router->setTransactionUse(true);
+        router->setRoutingParameter(idealNudgingDistance, d);
+        router->setRoutingOption(nudgeOrthogonalSegmentsConnectedToShapes, true);
+        router->setRoutingOption(nudgeOrthogonalTouchingColinearSegments, (opts & 2) != 0);
+        router->setRoutingOption(performUnifyingNudgingPreprocessingStep, (opts & 4) != 0);
+        router->setRoutingOption(nudgeSharedPathsWithCommonEndPoint, (opts & 8) != 0);
+        router->setRoutingOption(penaliseOrthogonalSharedPathsAtConnEnds, (opts & 16) != 0);
+        Rectangle ra = mkRect(100, ya, 160, ya + H + 20), rb = mkRect(160 + gapx, yb, 220 + gapx, yb + H + 20);
+        printf("obstacle %s %s %s %s\n", hx(ra.ps[3].x).c_str(), hx(ra.ps[3].y).c_str(), hx(ra.ps[1].x).c_str(), hx(ra.ps[1].y).c_str());
+        printf("obstacle %s %s %s %s\n", hx(rb.ps[3].x).c_str(), hx(rb.ps[3].y).c_str(), hx(rb.ps[1].x).c_str(), hx(rb.ps[1].y).c_str());
+        new ShapeRef(router, ra, 1);
+        new ShapeRef(router, rb, 2);
+        std::vector<ConnRef *> conns;
+        int n = 0;
+        for (int i = 0; i < m; ++i) {
+            double y = y0 + step * i;
+            Point s = P(130, y), t = P(190 + gapx, y);
+            printf("conn %d %s %s %s %s\n", n, hx(s.x).c_str(), hx(s.y).c_str(), hx(t.x).c_str(), hx(t.y).c_str());
+            ConnRef *c = new ConnRef(router, ConnEnd(s), ConnEnd(t), (unsigned) (100 + n));
+            c->setRoutingType(ConnType_Orthogonal);
+            conns.push_back(c); ++n;
+        }
+        if (extra) {
+            Point s = P(130, y0 + step * m), t = P(160 + gapx / 2, top - 40 - (double) r.range(0, 30));
+            printf("conn %d %s %s %s %s\n", n, hx(s.x).c_str(), hx(s.y).c_str(), hx(t.x).c_str(), hx(t.y).c_str());
+            ConnRef *c = new ConnRef(router, ConnEnd(s), ConnEnd(t), (unsigned) (100 + n));
+            c->setRoutingType(ConnType_Orthogonal);
+            conns.push_back(c); ++n;
+        }
+        fflush(stdout);
+        c10r::arm();
+        router->processTransaction();
+        c10r::dump();
+        for (int i = 0; i < n; ++i) {
+            pts("route", i, conns[i]->route(), transpose);
+            pts("disp", i, conns[i]->displayRoute(), transpose);
+        }
+        printf("overlap %d\n", (int) router->existsOrthogonalSegmentOverlap());
+        vh::endCase();
+        delete router;
+    } catch (vpsc::CriticalFailure &f) {
+        c10r::dump();
+        printf("assert %s\n", oneLine(f.what()).c_str());
+        vh::endCase();
+        if (a.only >= 0) _exit(0);
+        reexecFrom(k + 1, argc, argv);
+    }
+    return true;
+}
+
 int main(int argc, char **argv) {
     vh::Args a = vh::parseArgs(argc, argv);
     bool thorough = (a.tier == "thorough");
@@ -331,8 +410,13 @@ int main(int argc, char **argv) {
     long nmid = (thorough ? 8000 : 1500) * a.scale;        // second family, indices ncases .. ncases+nmid-1
     long ntie = (thorough ? 8000 : 1500) * a.scale;        // third family, after the second
     long nzc = (thorough ? 4000 : 800) * a.scale;          // fourth family, after the third
-    for (long k = from; k < ncases + nmid + ntie + nzc; ++k) {
+    long nse = (thorough ? 3000 : 500) * a.scale;          // fifth family, after the fourth
+    for (long k = from; k < ncases + nmid + ntie + nzc + nse; ++k) {
         if (!a.want(k)) continue;
+        if (k >= ncases + nmid + ntie + nzc) {
+            if (!shapeEndsCase(a, k, argc, argv)) return 0;
+            continue;
+        }
         if (k >= ncases + nmid + ntie) {
             if (!zCrossCase(a, k, argc, argv)) return 0;
             continue;
